@@ -24,7 +24,7 @@ import operator
 REPO = os.environ.get('PRYSM_REPO', '/repo')
 
 _REWRITE_BUILTINS = {'int': '__vint__', 'float': '__vfloat__', 'round': '__vround__',
-                     'complex': '__vcomplex__', 'isinstance': '__visinstance__'}
+                     'complex': '__vcomplex__', 'isinstance': '__visinstance__', 'open': '__vopen__'}
 
 
 class _Lifter(ast.NodeTransformer):
@@ -172,7 +172,7 @@ def identity_helpers():
         '__vipow__': operator.ipow,
         '__vint__': int, '__vfloat__': float, '__vround__': round, '__vcomplex__': complex,
         '__visinstance__': isinstance,
-        '__vmath__': math, '__vtruenp__': numpy, '__vgetitem__': operator.getitem,
+        '__vmath__': math, '__vtruenp__': numpy, '__vgetitem__': operator.getitem, '__vopen__': open,
     }
 
 
